@@ -473,6 +473,59 @@ def split_message(msg, head):
     return rest[5:].split("\n--- ")
 
 
+# M2: which AST node a (faultable) instruction's span must come from.  The compiler records `self.span()` = the span
+# of the node being compiled (push_span in compile_node), so the span of an Add instruction is the span of a
+# BinaryOp(Add) node, of a Call the span of its Chain node, ...  An instruction emitted while a stale / leaked / sibling
+# span is on top of the span stack carries the span of a node of another kind, or shares one node with another
+# instruction.
+_BIN = ["Add", "Subtract", "Multiply", "Divide", "Remainder", "Power", "Less", "LessOrEqual", "Greater",
+        "GreaterOrEqual", "NotEqual", "AddAssign", "SubtractAssign", "MultiplyAssign", "DivideAssign",
+        "RemainderAssign", "PowerAssign"]
+M2_TABLE = {op: {"BinaryOp:" + op} for op in _BIN}
+M2_TABLE.update({
+    "Equal": {"BinaryOp:Equal", "SmallInt", "Int", "Float", "Str", "BoolTrue", "BoolFalse", "Null"},   # match patterns
+    "Negate": {"UnaryOp:Negate"}, "Not": {"UnaryOp:Not"},
+    "Throw": {"Throw"}, "Debug": {"Debug"},
+    "Call": {"Chain", "BinaryOp:Pipe"}, "CallInstance": {"Chain"}, "Access": {"Chain"}, "Index": {"Chain"},
+    "Capture": {"Function"}, "Function": {"Function"},
+})
+# one instruction per node for these (a second instruction with the same span has inherited it)
+M2_UNIQUE = set(_BIN) | {"Negate", "Not", "Throw", "Debug"}
+
+
+def d_spans_vs_ast(r):
+    fails = []
+    ast = r.get("ast")
+    if not ast:
+        return fails
+    byspan = {}
+    for a in ast:
+        byspan.setdefault(tuple(a[1:5]), []).append(a[0])
+    used = {}
+    for ins in r.get("instrs", []):
+        if len(ins) < 6:
+            continue
+        sp = tuple(ins[2:6])
+        kinds = byspan.get(sp)
+        if kinds is None:
+            fails.append(f"M2 instruction {ins[1]} at ip {ins[0]} has span {list(sp)} which is not the span of any AST node")
+            break
+        allowed = M2_TABLE.get(ins[1])
+        if allowed is not None and not (allowed & set(kinds)):
+            fails.append(f"M2 instruction {ins[1]} at ip {ins[0]} carries the span {list(sp)} of a {'/'.join(sorted(set(kinds)))} "
+                         f"node (line {sp[0]+1}), not of a {'/'.join(sorted(allowed))} node")
+            break
+        if ins[1] in M2_UNIQUE:
+            key = (ins[1], sp)
+            used[key] = used.get(key, 0) + 1
+            have = sum(1 for k in kinds if k in allowed)
+            if used[key] > have:
+                fails.append(f"M2 {used[key]} {ins[1]} instructions carry the span {list(sp)} of {have} AST node(s): one of them "
+                             f"inherited a sibling's span")
+                break
+    return fails
+
+
 def d_fault(case, r):
     """clauses of C12 on a fault-planted program; returns (failures, invalid_reason)"""
     src = case["src"]
@@ -518,6 +571,7 @@ def d_fault(case, r):
     else:
         if pos != len(out):
             fails.append(f"G1 unexpected extra debug output {out[pos:pos+80]!r}")
+    fails += d_spans_vs_ast(r)
     # every instruction has a span inside the text
     for ins in r.get("instrs", []):
         if len(ins) < 6:
